@@ -100,9 +100,20 @@ type universe struct {
 // Addresses with a meaning.
 var (
 	globalBlockedNet = netip.MustParsePrefix("192.0.2.0/25")
-	profBlockedNet   = netip.MustParsePrefix("198.51.100.0/24")
-	profAllowedNet   = netip.MustParsePrefix("198.51.100.128/25")
-	clientAddrs      = []string{
+	// More globally blocked networks, of both families and of lengths that
+	// code might take for something special: a single address of each
+	// family, an IPv6 network of 32 bits, odd lengths.
+	globalBlockedNets = []netip.Prefix{
+		globalBlockedNet,
+		netip.MustParsePrefix("203.0.113.99/32"),
+		netip.MustParsePrefix("2001:db8:bad::/48"),
+		netip.MustParsePrefix("2001:dead::/32"),
+		netip.MustParsePrefix("2001:db8:1::7/128"),
+		netip.MustParsePrefix("198.51.101.64/27"),
+	}
+	profBlockedNet = netip.MustParsePrefix("198.51.100.0/24")
+	profAllowedNet = netip.MustParsePrefix("198.51.100.128/25")
+	clientAddrs    = []string{
 		"203.0.113.7",                         // plain
 		"192.0.2.5",                           // globally blocked subnet
 		"192.0.2.200",                         // outside the blocked /25
@@ -111,6 +122,9 @@ var (
 		"100.70.0.1",                          // ASN 64500 (blocked for some profiles)
 		"100.71.0.1",                          // ASN 64501 (allowed for some profiles)
 		"10.10.0.1", "10.10.0.2", "10.10.0.3", // linked IPs
+		// In and next to the further globally blocked networks.
+		"203.0.113.99", "203.0.113.98", "2001:db8:bad::1", "2001:db8:bae::1", "2001:dead::", "2001:dead:1::5",
+		"2001:deae::1", "2001:db8:1::7", "2001:db8:1::8", "198.51.101.70", "198.51.101.100",
 	}
 	dedicatedIPs = []string{"198.18.10.11", "198.18.10.12", "198.18.10.77"}
 )
@@ -651,7 +665,7 @@ func run(s *kernel.Sim, prop, cfg string) {
 
 	global, err := access.NewGlobal(
 		[]string{"gblocked.names.test", "||gsub.names.test^", "||gtype.names.test^$dnstype=AAAA"},
-		[]netip.Prefix{globalBlockedNet},
+		globalBlockedNets,
 	)
 	if err != nil {
 		panic(err)
@@ -1097,8 +1111,10 @@ func genRequest(t *kernel.Tape, u *universe, servers map[string]*agd.Server, kin
 
 // accessBlocked is the reference for C10, from the statement.
 func (u *universe) accessBlocked(r *request, who string) (blocked bool, why string) {
-	if globalBlockedNet.Contains(r.client) {
-		return true, "global-subnet"
+	for _, n := range globalBlockedNets {
+		if n.Contains(r.client) {
+			return true, "global-subnet"
+		}
 	}
 
 	host := strings.ToLower(strings.TrimSuffix(r.name, "."))
